@@ -23,19 +23,6 @@ fn candidates(c: &Case) -> Vec<Case> {
             let end = (start + chunk).min(n);
             let mut d = c.clone();
             d.steps.drain(start..end);
-            // fault / corruption step indexes follow the removed range
-            let removed = end - start;
-            let fix = |s: usize| if s >= end { Some(s - removed) } else if s >= start { None } else { Some(s) };
-            d.op_faults = d
-                .op_faults
-                .iter()
-                .filter_map(|f| fix(f.step).map(|s| OpFaultSpec { step: s, ..f.clone() }))
-                .collect();
-            d.io_faults = d
-                .io_faults
-                .iter()
-                .filter_map(|f| fix(f.step).map(|s| IoFaultSpec { step: s, ..f.clone() }))
-                .collect();
             if !d.steps.is_empty() || d.sessions.iter().any(|s| !s.is_empty()) {
                 out.push(d);
             }
@@ -61,6 +48,32 @@ fn candidates(c: &Case) -> Vec<Case> {
         for i in 0..c.sessions[s].len() {
             let mut d = c.clone();
             d.sessions[s].remove(i);
+            // explicit faults of the fault engine address statements of session 0 by index
+            if s == 0 {
+                let fix = |st: usize| {
+                    if st == i {
+                        None
+                    } else if st > i {
+                        Some(st - 1)
+                    } else {
+                        Some(st)
+                    }
+                };
+                let had = !d.op_faults.is_empty() || !d.io_faults.is_empty();
+                d.op_faults = d
+                    .op_faults
+                    .iter()
+                    .filter_map(|f| fix(f.step).map(|st| OpFaultSpec { step: st, ..f.clone() }))
+                    .collect();
+                d.io_faults = d
+                    .io_faults
+                    .iter()
+                    .filter_map(|f| fix(f.step).map(|st| IoFaultSpec { step: st, ..f.clone() }))
+                    .collect();
+                if had && d.op_faults.is_empty() && d.io_faults.is_empty() {
+                    continue; // would silently fall back to a derived fault plan
+                }
+            }
             out.push(d);
         }
     }
